@@ -62,6 +62,10 @@ CHECKS = {
    text="partial: Coq state machine of the server's document store (full-text sync: open/change replace the text, close removes it and falls back to disk; the workspace view is the disk overlaid by the open documents) with the analysis abstract: after any message sequence the store is a function of the current texts only, the diagnostics published last for a document are the analysis of its current text, and re-sending the texts yields what a fresh server yields. Everything about the real analysis is decided against the running server: generated sessions of 1..30 messages over 1..3 documents (generated, token-mutated, truncated, soup and CRLF texts; positions at token starts, inside tokens, at and past line ends, beyond the document up to u32::MAX) driven over stdio; the server must stay alive and answer every request, every reported range must lie in the document it names, final diagnostics and workspace symbols must equal a fresh server's on the final texts, syntax diagnostics must agree with the compiler's parser in presence and position, and texts that `ucg build` accepts must have no diagnostics",
    note="the analysis itself (tokenise/parse/type-check, hover, completion) is not modelled; one listed known finding (positions are byte columns / LF lines, not UTF-16 / CR-aware)",
    technique="Coq proof (document-store refinement with abstract analysis) + session-level correspondence with the running server, a fresh server and the compiler's parser"),
+ "C12": dict(category="proof",
+   text="Coq model of src/convert/xml.rs (document tuple -> writer events, every error in the order the checks fire), of the xml-rs EventWriter (indentation flags, namespace stack, escape tables) and of an independent XML 1.0 reader. Proved: the events written are those of the tree the document describes (NULL attrs/children/text omitted); the conversion fails exactly for the inexpressible documents; everything written as text or attribute value consists of XML characters; the escape tables are inverted by a reader; every well-formed tree is written as a document that reads back as exactly the tree written, which differs from the described tree only by whitespace-only text nodes from indentation; with refutation lemmas for the side conditions (CR in text, TAB in attribute values, unescaped namespace uri). Tied to the real converter on every generated document (bytes and error message identical to the model) and the property is decided on the real output with expat as independent parser, against a python description of the tree and against the model's as_written tree",
+   note="xml-rs is third party and re-modelled (compared byte for byte); the reader works on bytes (no UTF-8 validation beyond U+FFFE/U+FFFF, XML 1.0 rules only); whitespace-only text from indentation is treated as layout; six listed known findings (CR in text, TAB in attributes, unescaped namespace uri, shadowed namespace re-declaration, non-element root, encoding label)",
+   technique="Coq proof (writer/reader round trip by induction over the tree with the writer's state; error characterisation) + byte-level correspondence + independent parser on the real output"),
  "C13": dict(category="proof",
    text="Coq state machine of the assertion collector and the `ucg test` driver: the verdict of each file equals its specification (builds and all assertions ok), independent of the other files and their order, exit status non-zero iff some file fails, each assertion logged exactly once; a lemma shows the shared collector of the original code refuted this. Tied to the real binary by running generated test files in every order and comparing verdicts, logs and exit status with the extracted model and with the generator's ground truth",
    note="per-file build abstracted to the list of asserted values; asserts in imported files and directory recursion order not modelled",
